@@ -237,6 +237,7 @@ class Interp:
         self.overrides = dict(overrides or {})
         self.eager_generators: set = set()
         self.method_oracles: dict = {}
+        self.allow_while = False
         self.max_steps = max_steps
         self.max_depth = max_depth
         self.steps = 0
@@ -494,12 +495,20 @@ class Interp:
                 self.exec_block(mod, st.finalbody, env)
         elif isinstance(st, (ast.Import, ast.ImportFrom)):
             pass  # resolved lazily through the module import table
-        elif isinstance(st, ast.While) and self._is_padding_loop(st):
-            # `while len(xs) < len(ys): xs.append(c)` -- a bounded padding idiom (each round moves one
-            # length one step towards the other); general `while` stays outside the template subset
-            while self.truth(self.eval(mod, st.test, env), mod, st.test):
-                self._tick(st)
-                self.exec_block(mod, st.body, env)
+        elif isinstance(st, ast.While) and (self.allow_while or self._is_padding_loop(st)):
+            # the padding idiom `while len(xs) < len(ys): xs.append(c)` is always interpreted; general worklist loops only when
+            # the caller opted in (folds over finite model structures), and always under the step budget
+            try:
+                while self.truth(self.eval(mod, st.test, env), mod, st.test):
+                    self._tick(st)
+                    try:
+                        self.exec_block(mod, st.body, env)
+                    except _Continue:
+                        continue
+                else:
+                    self.exec_block(mod, st.orelse, env)
+            except _Break:
+                pass
         else:
             self.unsupported(mod, st, 'statement kind outside the template subset')
 
